@@ -64,6 +64,11 @@ def run(tier):
     maxd = 2 if quick else 3
     cells = []   # (leg, args, data, expected, desc, opts)
 
+    # more input chunks than a single worker has input slots (2W), none of which fills its block exactly: in
+    # --sequential mode the partly filled block is parked between chunks while the reader waits for a slot
+    for sp in (['EEEE', 'ZEZs'] if quick else ['EEEE', 'ZEZs', 'EEEEE', 'CECE']):
+        for mode in ([], ['-u']):
+            cells.append(('compress' + ('-seq' if mode else ''), ['-n1', '-1'] + mode, inputs.shape(sp), 'roundtrip', 'shape=%r W=1 (more chunks than input slots)' % sp, {}))
     for sp in shapes_compress(tier):
         data = inputs.shape(sp)
         for mode in ([], ['-u']):
